@@ -119,7 +119,8 @@ MB_ModesOK(o)   == o.modesOK
 SweepPost(mask, prop) ==
     [i \in DOMAIN cur |-> IF mask[i] THEN Slot(prop[i], cur[i].lab, TRUE) ELSE cur[i]]
 SW_PropCoherent(o) == \A i \in DOMAIN o.prop : Coherent(o.prop[i])
-SW_Update(o)       == o.slots = SweepPost(o.mask, o.prop)
+SW_Update(o)       == /\ Len(o.slots) = Len(cur) /\ Len(o.mask) = Len(cur) /\ Len(o.prop) = Len(cur)
+                      /\ o.slots = SweepPost(o.mask, o.prop)
 SW_Evals(o)        == o.dEvals = cfg.np
 
 \* ---- MutateEnd.  o = [slots, calls, dEvals]   (dEvals: evaluations since MutateBegin)
@@ -140,7 +141,31 @@ TM_ESS(o)      == o.essPost >= cfg.nTotal
 TM_Evidence(o) == o.evid = o.evidAt
 
 -----------------------------------------------------------------------------
-(* Actions (model-checking form: conjunction of the clauses + update) *)
+(* Clause tables: the named clauses of each action as a record of booleans   *)
+(* (single source for the model-checking actions and for trace validation).  *)
+
+RW_Clauses(o) == [RW_Iter |-> RW_Iter(o), RW_FirstZero |-> RW_FirstZero(o), RW_Monotone |-> RW_Monotone(o),
+                  RW_Bounded |-> RW_Bounded(o), RW_AdvanceESS |-> RW_AdvanceESS(o), RW_Limit |-> RW_Limit(o),
+                  RW_SameBeta |-> RW_SameBeta(o), RW_RefAgrees |-> RW_RefAgrees(o)]
+TR_Clauses(o) == [TR_Skip |-> TR_Skip(o), TR_Branch |-> TR_Branch(o), TR_PredictFitted |-> TR_PredictFitted(o),
+                  TR_Cadence |-> TR_Cadence(o), TR_FitSets |-> TR_FitSets(o), TR_Cap |-> TR_Cap(o),
+                  TR_ModesOK |-> TR_ModesOK(o), TR_ModesExist |-> TR_ModesExist(o)]
+RS_Clauses(o) == [RS_WholeCopies |-> RS_WholeCopies(o), RS_Count |-> RS_Count(o), RS_LabelRange |-> RS_LabelRange(o)]
+MP_Clauses(o) == [MP_Count |-> MP_Count(o), MP_Coherent |-> MP_Coherent(o), MP_NoInf |-> MP_NoInf(o),
+                  MP_Calls |-> MP_Calls(o), MP_Evals |-> MP_Evals(o), MP_LogzHull |-> MP_LogzHull(o)]
+MB_Clauses(o) == [MB_SameSlots |-> MB_SameSlots(o), MB_Labels |-> MB_Labels(o), MB_ModesOK |-> MB_ModesOK(o)]
+SW_Clauses(o) == [SW_PropCoherent |-> SW_PropCoherent(o), SW_Update |-> SW_Update(o), SW_Evals |-> SW_Evals(o)]
+ME_Clauses(o) == [ME_Slots |-> ME_Slots(o), ME_Calls |-> ME_Calls(o), ME_Swept |-> ME_Swept(o)]
+CM_Clauses(o) == [CM_Append |-> CM_Append(o), CM_OnePerKey |-> CM_OnePerKey(o), CM_PrefixSame |-> CM_PrefixSame(o),
+                  CM_Coherent |-> CM_Coherent(o), CM_NoInf |-> CM_NoInf(o), CallsExact |-> calls = evals]
+TM_Clauses(o) == [TM_NearOne |-> TM_NearOne(o), TM_ESS |-> TM_ESS(o), TM_Evidence |-> TM_Evidence(o)]
+
+All(c) == \A n \in DOMAIN c : c[n]
+Failing(c) == {n \in DOMAIN c : ~c[n]}
+
+-----------------------------------------------------------------------------
+(* Actions.  XxxU is the state update of a step given its observation; Xxx   *)
+(* is the intended action: all clauses hold and the update is taken.         *)
 
 CfgOK == /\ cfg.np \in Nat \ {0}
          /\ cfg.metric \in {"ess", "vv"}
@@ -158,73 +183,64 @@ InitFresh ==
 \* the loop test of run_sampling: continue unless at beta = 1 with enough posterior ESS
 Continue(enough) == ~(beta = cfg.one /\ enough /\ hist # <<>>)
 
-Reweight(o) ==
-    /\ pc = "ready"
-    /\ RW_Iter(o) /\ RW_FirstZero(o) /\ RW_Monotone(o) /\ RW_Bounded(o)
-    /\ RW_AdvanceESS(o) /\ RW_Limit(o) /\ RW_SameBeta(o) /\ RW_RefAgrees(o)
+ReweightU(o) ==
     /\ iter' = o.iter /\ beta' = o.beta /\ ess' = o.ess /\ logz' = o.logz /\ wts' = o.wts
     /\ pc' = "reweighted"
     /\ UNCHANGED <<cfg, calls, evals, cur, hist, clus, modes, nsw>>
+Reweight(o) == pc = "ready" /\ All(RW_Clauses(o)) /\ ReweightU(o)
 
-Train(o) ==
-    /\ pc = "reweighted"
-    /\ TR_Skip(o) /\ TR_Branch(o) /\ TR_PredictFitted(o) /\ TR_Cadence(o)
-    /\ TR_FitSets(o) /\ TR_Cap(o) /\ TR_ModesOK(o) /\ TR_ModesExist(o)
+TrainU(o) ==
     /\ clus' = IF o.branch = "Fit" THEN [fitted |-> o.fitted, K |-> o.K] ELSE clus
     /\ modes' = o.modes
     /\ pc' = "trained"
     /\ UNCHANGED <<cfg, iter, beta, ess, logz, wts, calls, evals, cur, hist, nsw>>
+Train(o) == pc = "reweighted" /\ All(TR_Clauses(o)) /\ TrainU(o)
 
-Resample(o) ==
-    /\ pc = "trained"
-    /\ RS_WholeCopies(o) /\ RS_Count(o) /\ RS_LabelRange(o)
+ResampleU(o) ==
     /\ cur' = IF beta = 0 THEN cur ELSE o.slots
     /\ pc' = "resampled"
     /\ UNCHANGED <<cfg, iter, beta, ess, logz, wts, calls, evals, hist, clus, modes, nsw>>
+Resample(o) == pc = "trained" /\ All(RS_Clauses(o)) /\ ResampleU(o)
 
-MutatePrior(o) ==
-    /\ pc = "resampled" /\ beta = 0
-    /\ MP_Count(o) /\ MP_Coherent(o) /\ MP_NoInf(o) /\ MP_Calls(o) /\ MP_Evals(o) /\ MP_LogzHull(o)
+MutatePriorU(o) ==
     /\ cur' = o.slots
     /\ calls' = o.calls /\ evals' = evals + o.dEvals
     /\ logz' = o.logz
     /\ pc' = "mutated"
     /\ UNCHANGED <<cfg, iter, beta, ess, wts, hist, clus, modes, nsw>>
+MutatePrior(o) == pc = "resampled" /\ beta = 0 /\ All(MP_Clauses(o)) /\ MutatePriorU(o)
 
-MutateBegin(o) ==
-    /\ pc = "resampled" /\ beta > 0
-    /\ MB_SameSlots(o) /\ MB_Labels(o) /\ MB_ModesOK(o)
+MutateBeginU(o) ==
+    /\ cur' = o.slots
     /\ pc' = "mutating" /\ nsw' = 0
-    /\ UNCHANGED <<cfg, iter, beta, ess, logz, wts, calls, evals, cur, hist, clus, modes>>
+    /\ UNCHANGED <<cfg, iter, beta, ess, logz, wts, calls, evals, hist, clus, modes>>
+MutateBegin(o) == pc = "resampled" /\ beta > 0 /\ All(MB_Clauses(o)) /\ MutateBeginU(o)
 
-Sweep(o) ==
-    /\ pc = "mutating"
-    /\ SW_PropCoherent(o) /\ SW_Update(o) /\ SW_Evals(o)
+SweepU(o) ==
     /\ cur' = o.slots
     /\ evals' = evals + o.dEvals
     /\ nsw' = nsw + 1
     /\ UNCHANGED <<pc, cfg, iter, beta, ess, logz, wts, calls, hist, clus, modes>>
+Sweep(o) == pc = "mutating" /\ All(SW_Clauses(o)) /\ SweepU(o)
 
-MutateEnd(o) ==
-    /\ pc = "mutating"
-    /\ ME_Slots(o) /\ ME_Calls(o) /\ ME_Swept(o)
+MutateEndU(o) ==
+    /\ cur' = o.slots
     /\ calls' = o.calls
     /\ pc' = "mutated"
-    /\ UNCHANGED <<cfg, iter, beta, ess, logz, wts, evals, cur, hist, clus, modes, nsw>>
+    /\ UNCHANGED <<cfg, iter, beta, ess, logz, wts, evals, hist, clus, modes, nsw>>
+MutateEnd(o) == pc = "mutating" /\ All(ME_Clauses(o)) /\ MutateEndU(o)
 
-Commit(o) ==
-    /\ pc = "mutated"
-    /\ CM_Append(o) /\ CM_OnePerKey(o) /\ CM_PrefixSame(o) /\ CM_Coherent(o) /\ CM_NoInf(o)
+CommitU(o) ==
     /\ hist' = Append(hist, [iter |-> iter, beta |-> beta, parts |-> o.batch])
     /\ pc' = "ready"
     /\ UNCHANGED <<cfg, iter, beta, ess, logz, wts, calls, evals, cur, clus, modes, nsw>>
+Commit(o) == pc = "mutated" /\ All(CM_Clauses(o)) /\ CommitU(o)
 
-Terminate(o) ==
-    /\ pc = "ready" /\ hist # <<>>
-    /\ TM_NearOne(o) /\ TM_ESS(o) /\ TM_Evidence(o)
+TerminateU(o) ==
     /\ logz' = o.evid
     /\ pc' = "done"
     /\ UNCHANGED <<cfg, iter, beta, ess, wts, calls, evals, cur, hist, clus, modes, nsw>>
+Terminate(o) == pc = "ready" /\ hist # <<>> /\ All(TM_Clauses(o)) /\ TerminateU(o)
 
 -----------------------------------------------------------------------------
 (* State invariants and action properties of the system (checked by TLC on  *)
